@@ -1,5 +1,6 @@
 """C02 centre and subpixel masks are the sampled membership function."""
 import functools
+import math
 
 import numpy as np
 import z3
@@ -504,6 +505,21 @@ def h_ellipse_kernel(n, m):
     the n x n sample centres that are strictly inside the origin-centred rotated ellipse"""
     from vf.pyxsym import Interp, ISum
     if not m.sym:
+        # replay: the routine is interpreted concretely from the current .pyx source and compared with the count of sample centres
+        x0, y0, sx, sy, rx, ry = m.real('x0'), m.real('y0'), m.pos('sx'), m.pos('sy'), m.pos('rx'), m.pos('ry')
+        th = m.angle('theta', 'rad')
+        tv = float(th.to_value(u.rad))
+        c, s = math.cos(tv), math.sin(tv)
+        I = Interp('elliptical_overlap', symbolic=False)
+        v = I.call('elliptical_overlap_single_subpixel', [x0, y0, x0 + sx, y0 + sy, rx, ry, tv, n])
+        inside = outside = 0
+        for a in range(n):
+            for b in range(n):
+                X, Y = x0 + sx * ((a + 0.5) / n), y0 + sy * ((b + 0.5) / n)
+                inside += bool(O.ellipse_in(X, Y, 0, 0, 2 * rx, 2 * ry, c, s))
+                outside += bool(O.ellipse_out(X, Y, 0, 0, 2 * rx, 2 * ry, c, s))
+        m.require('sample strictly inside => counted / strictly outside => not counted (replay: totals)',
+                  inside / (n * n) - 1e-12 <= v <= (n * n - outside) / (n * n) + 1e-12)
         return
     x0, y0 = m.real('x0'), m.real('y0')
     sx, sy = m.pos('sx'), m.pos('sy')
